@@ -212,7 +212,8 @@ class CheckpointMixin(ABC):
         )
 
         template_cp_state = self.solver_state
-        step = step or load_manager.latest_step()
+        if step is None:
+            step = load_manager.latest_step()
         if step is None:
             raise ValueError(f"No checkpoints found in {checkpoint_dir}")
 
@@ -365,7 +366,8 @@ class CheckpointMixin(ABC):
         manager = cls._create_checkpoint_manager(checkpoint_dir, 1, True)
 
         # Get step to restore
-        step = step or manager.latest_step()
+        if step is None:
+            step = manager.latest_step()
         if step is None:
             raise ValueError(f"No checkpoints found in {checkpoint_dir}")
 
